@@ -201,3 +201,95 @@ Theorem C15_rebuild_stable_response_state : forall p c z v hs,
     headers p' = headers p /\ bodyb p' = bodyb p /\ is_chunked_encoded p' = is_chunked_encoded p.
 Proof. exact rebuild_stable_response_state. Qed.
 Print Assumptions C15_rebuild_stable_response_state.
+
+(* ---------------------------------------------------------------------------------------------- *)
+(* what the builders emit is well-formed for an independent, RFC 7230-level recogniser             *)
+
+(* [wf_message] (Http/Grammar.v; cross-validated against h11 on every run): request-line / status-line
+   grammar, header-field grammar (token ":" OWS value OWS, no obs-fold), Host exactly once in an
+   HTTP/1.1 request, at most one Transfer-Encoding and then exactly "chunked" with a body that is a
+   valid chunked stream, at most one decimal Content-Length equal to the body length, never both,
+   no body after 1xx/204/304.  For all arguments in [rfc_req_args] / [rfc_resp_args] (tokens, visible
+   characters, field bytes; header names unique case-insensitively; a caller-supplied chunked body
+   is a chunked stream; a caller-supplied Content-Length for an absent body says 0; Host present for
+   HTTP/1.1; status 100..999; no body for 1xx/204/304 — what the builders do not check) the built
+   message is accepted. *)
+Theorem C15_build_wellformed_request : forall ua a,
+  rfc_req_args ua a = true -> wf_message REQUEST_PARSER (build_request ua a) = true.
+Proof. exact build_wellformed_request. Qed.
+Print Assumptions C15_build_wellformed_request.
+
+Theorem C15_build_wellformed_response : forall a,
+  rfc_resp_args a = true -> wf_message RESPONSE_PARSER (build_response_of a) = true.
+Proof. exact build_wellformed_response. Qed.
+Print Assumptions C15_build_wellformed_response.
+
+(* ---------------------------------------------------------------------------------------------- *)
+(* non-vacuity, and refutations of the unguarded / unrepaired forms                                *)
+
+(* the domains are inhabited by non-trivial arguments (a caller-supplied, differently spelled and
+   wrong Content-Length that the builder must overwrite; an already chunk-encoded response body with
+   extension, leading zeros and a trailer) *)
+Example C15_nonvacuous_request_args :
+  wf_req_args ex_ua ex_req_args = true /\ rfc_req_args ex_ua ex_req_args = true /\
+  exists u, from_bytes DEFAULT_ALLOWED_URL_SCHEMES (ra_url ex_req_args) = Ok u.
+Proof. exact ex_req_args_ok. Qed.
+Example C15_nonvacuous_response_args :
+  wf_resp_args ex_resp_args = true /\ rfc_resp_args ex_resp_args = true.
+Proof. exact ex_resp_args_ok. Qed.
+
+(* the empty chunked body (the defect repaired in _get_body_or_chunks): rebuilt WITH its terminator,
+   byte-identical to what was received, and parsed back to a complete message with an empty body *)
+Example C15_rebuild_empty_chunked :
+  exists p p', parse (new_parser REQUEST_PARSER) ex_empty_chunked = Ok p /\ state p = COMPLETE /\
+    build ex_ua p [] false None = Ok ex_empty_chunked /\
+    parse (new_parser REQUEST_PARSER) ex_empty_chunked = Ok p' /\ body p' = Some [] /\ state p' = COMPLETE.
+Proof. exact ex_empty_chunked_rebuild. Qed.
+Example C15_rebuild_hypotheses_inhabited :
+  exists p hs, parse (new_parser REQUEST_PARSER) ex_empty_chunked = Ok p /\
+    headers p = lift_headers hs /\ forallb ok_header hs = true /\ NoDup (lkeys hs) /\ framing_consistent p hs.
+Proof. exact ex_rebuild_hypotheses. Qed.
+
+(* update_body as it was (kept as update_body_old): the chunked encoding was stored in body and build()
+   encoded it once more — the re-parsed body is "5 CRLF hello CRLF 0 CRLF CRLF", not "hello" *)
+Theorem C15_update_body_old_refuted :
+  exists p p1 raw p2,
+    parse (new_parser REQUEST_PARSER) ex_chunked_post = Ok p /\ state p = COMPLETE /\
+    update_body_old (fun x => x) p (bs "hello") (bs "text/plain") = Ok p1 /\
+    build ex_ua p1 [] false None = Ok raw /\
+    parse (new_parser REQUEST_PARSER) raw = Ok p2 /\ state p2 = COMPLETE /\
+    body p2 = Some (bs "5" ++ CRLF ++ bs "hello" ++ CRLF ++ bs "0" ++ CRLF ++ CRLF).
+Proof. exact update_body_old_refuted. Qed.
+Print Assumptions C15_update_body_old_refuted.
+Example C15_update_body_then_rebuild :
+  exists p p1 raw p2,
+    parse (new_parser REQUEST_PARSER) ex_chunked_post = Ok p /\ state p = COMPLETE /\
+    update_body (fun x => x) p (bs "hello") (bs "text/plain") = Ok p1 /\
+    build ex_ua p1 [] false None = Ok raw /\
+    parse (new_parser REQUEST_PARSER) raw = Ok p2 /\ state p2 = COMPLETE /\ body p2 = Some (bs "hello").
+Proof. exact update_body_new_ok. Qed.
+
+(* the guards of C15_rebuild_stable_* cannot be dropped: each unguarded statement is false of the
+   faithful model (and of the implementation: same inputs in corpus/C15/outside-domain.json) *)
+Theorem C15_rebuild_double_slash_refuted :
+  exists p raw p', parse (new_parser REQUEST_PARSER) ex_double_slash = Ok p /\ state p = COMPLETE /\
+    path p = Some (bs "//x") /\
+    build ex_ua p [] false None = Ok raw /\ parse (new_parser REQUEST_PARSER) raw = Ok p' /\
+    host p' = Some (bs "x") /\ path p' = None.
+Proof. exact rebuild_double_slash_refuted. Qed.
+Print Assumptions C15_rebuild_double_slash_refuted.
+
+Theorem C15_rebuild_noncanonical_length_refuted :
+  exists p raw p', parse (new_parser REQUEST_PARSER) ex_cl05 = Ok p /\ state p = COMPLETE /\
+    build ex_ua p [] false None = Ok raw /\ parse (new_parser REQUEST_PARSER) raw = Ok p' /\
+    state p' = COMPLETE /\ body p' = body p /\ headers p' <> headers p /\
+    header p' CONTENT_LENGTH = Ok (bs "5") /\ header p CONTENT_LENGTH = Ok (bs "05").
+Proof. exact rebuild_noncanonical_length_refuted. Qed.
+Print Assumptions C15_rebuild_noncanonical_length_refuted.
+
+Theorem C15_rebuild_noncanonical_status_refuted :
+  exists p raw p', parse (new_parser RESPONSE_PARSER) ex_status_plus = Ok p /\ state p = COMPLETE /\
+    build_response p = Ok raw /\ parse (new_parser RESPONSE_PARSER) raw = Ok p' /\
+    code p = Some (bs "+200") /\ code p' = Some (bs "200").
+Proof. exact rebuild_noncanonical_status_refuted. Qed.
+Print Assumptions C15_rebuild_noncanonical_status_refuted.
